@@ -109,6 +109,16 @@ func c01pCheckDir(c *core.Ctx, k c01pCase, sess int, c2s bool, dirNo int, segs [
 			closeAt = j
 		}
 		if s.IsData() || s.Proto == wire.OpenSessionRequest || s.Proto == wire.OpenSessionResponse {
+			if closeAt >= 0 && readerLeft {
+				// The READER of this direction closed without reading to the end: its close request
+				// makes this side's input loop answer (close response, own close request) while the
+				// application may still be inside Write, past the state check; that Write is then
+				// numbered behind the close request. The peer is gone, nothing of this is owed to
+				// anybody (seen once in a thorough run at load 75: open response 0, close response 1,
+				// close request 2, data 3). Not part of the writer's program: not compared.
+				c.Hist("program_write_raced_peer_close", name)
+				continue
+			}
 			if closeAt >= 0 {
 				c.Violate("C01/program/wire/data-after-close-request", fmt.Sprintf("%s session %d %s: a data segment follows the close request", k.Name, sess, name), k)
 			}
